@@ -610,14 +610,12 @@ pub async fn run_conn(w: Arc<World>, slot: usize, sc: TcpScn) -> ConnObs {
                 }
             }
             _ => {
-                let port = match sc.entry {
-                    Entry::Tcp => {
-                        if refuse { w.refuse_tcp_port } else { w.tcp_ports[slot] }
-                    }
-                    Entry::Socks4 | Entry::Socks4a | Entry::Socks5V4 | Entry::Socks5V6 | Entry::Socks5Dom => w.socks_port,
-                    _ => w.http_port,
+                let (host, port) = match sc.entry {
+                    Entry::Tcp => (w.tcp_hosts[slot], if refuse { w.refuse_tcp_port } else { w.tcp_ports[slot] }),
+                    Entry::Socks4 | Entry::Socks4a | Entry::Socks5V4 | Entry::Socks5V6 | Entry::Socks5Dom => (w.socks_host, w.socks_port),
+                    _ => (w.http_host, w.http_port),
                 };
-                match tokio::time::timeout(step(), TcpStream::connect(("127.0.0.1", port))).await {
+                match tokio::time::timeout(step(), TcpStream::connect((host, port))).await {
                     Err(_) => Err("HANG connecting to the entry point".into()),
                     Ok(Err(e)) => Err(format!("connect entry point: {e}")),
                     Ok(Ok(s)) => {
